@@ -14,6 +14,7 @@ import NxsModel.Driver.Worker
 import NxsModel.Driver.Family
 import NxsModel.Driver.Pipe
 import NxsModel.Driver.Locks
+import NxsModel.Driver.Dummy
 open Nxs Nxs.Driver
 
 def dispatch (toks : List String) : String :=
@@ -34,6 +35,7 @@ def dispatch (toks : List String) : String :=
   | "fam" :: rest => (famOp rest).getD "bad-op"
   | "pipe" :: rest => (pipeOp rest).getD "bad-op"
   | "locks" :: rest => (locksOp rest).getD "bad-op"
+  | "dummy" :: rest => (dummyOp rest).getD "bad-op"
   | _ => "bad-op"
 
 partial def loop (h : IO.FS.Stream) (out : IO.FS.Stream) : IO Unit := do
